@@ -4,6 +4,10 @@ From Coq Require Import ZArith List Arith Lia Bool Permutation.
 From FF Require Import Model.Tensor Spec.Kron Proofs.TensorIdx Proofs.TensorOrder.
 Import ListNotations.
 
+Section Generic.
+Context {T : Type} {EN : Entry T} {EL : EntryLaws T}.
+Local Notation arr := (garr T).
+
 (* ------------------------------------------------------------------ einsum without ellipsis and summation *)
 Lemma letter_dim_notin ls : forall ds l acc, ~ In l ls -> letter_dim ls ds l acc = Ok acc.
 Proof.
@@ -33,7 +37,7 @@ Proof.
   destruct (existsb (Nat.eqb a) l); simpl; intros H; auto. destruct H; auto.
 Qed.
 
-Lemma tabulate_ext s f g : (forall a, inb a s -> f a = g a) -> tabulate s f = tabulate s g.
+Lemma tabulate_ext s (f g : list nat -> T) : (forall a, inb a s -> f a = g a) -> tabulate s f = tabulate s g.
 Proof.
   intros H. unfold tabulate. f_equal. apply map_ext_in. intros a Ha. apply H. apply In_indices. auto.
 Qed.
@@ -43,7 +47,7 @@ Lemma einsum2_nosum la lb lo A B :
   NoDup (la ++ lb) -> incl lo (la ++ lb) -> incl (la ++ lb) lo ->
   einsum2 la lb lo A B =
   Ok (tabulate (map (lookup (la ++ lb) (shp A ++ shp B)) lo)
-        (fun oi => (aget A (gather lo oi la (shp A)) * aget B (gather lo oi lb (shp B)))%Z)).
+        (fun oi => emul (aget A (gather lo oi la (shp A))) (aget B (gather lo oi lb (shp B))))).
 Proof.
   intros HA HB Hnd Hi1 Hi2. unfold einsum2.
   rewrite HA, HB, !Nat.ltb_irrefl. cbn [orb]. rewrite !Nat.sub_diag. cbn [firstn].
@@ -53,7 +57,7 @@ Proof.
   2:{ intros x Hx. apply nodup_nat_In in Hx. apply Hi2 in Hx.
       apply negb_false_iff. apply existsb_exists. exists x. split; auto. apply Nat.eqb_refl. }
   cbn [letter_dims bind]. f_equal. apply tabulate_ext. intros oi _.
-  cbn [indices map zsum fold_right]. rewrite !app_nil_r. lia.
+  cbn [indices map zsum fold_right]. rewrite !app_nil_r. apply eadd_0_r.
 Qed.
 
 (* ------------------------------------------------------------------ the letters of util.tensor *)
@@ -179,7 +183,7 @@ Proof.
   rewrite map_add_seq. f_equal. lia.
 Qed.
 
-Lemma indices_pairs sA : forall sB (h : list nat -> list nat -> Z), length sA = length sB ->
+Lemma indices_pairs sA : forall sB (h : list nat -> list nat -> T), length sA = length sB ->
   map (fun oi => h (evens oi) (odds oi)) (indices (interleave sA sB)) =
   map (fun idx => h (map2 Nat.div idx sB) (map2 Nat.modulo idx sB)) (indices (map2 Nat.mul sA sB)).
 Proof.
@@ -241,7 +245,7 @@ Proof.
     repeat split; auto; constructor; auto.
 Qed.
 
-Lemma pad_rank_id r A : length (shp A) = r -> pad_rank r A = A.
+Lemma pad_rank_id r (A : arr) : length (shp A) = r -> pad_rank r A = A.
 Proof. intros H. unfold pad_rank. rewrite H, Nat.sub_diag. destruct A; reflexivity. Qed.
 
 Theorem binary_tensor_kron2 r A B : wf r A -> wf r B -> binary_tensor r A B = Ok (kron2 A B).
@@ -256,7 +260,7 @@ Proof.
   unfold reshape, tabulate. cbn [dat].
   rewrite map_length, indices_length, prodn_interleave, prodn_map2_mul by lia.
   rewrite Nat.eqb_refl. f_equal. unfold kron2, tabulate. f_equal.
-  rewrite <- (indices_pairs (shp A) (shp B) (fun e o => (aget A e * aget B o)%Z)) by lia.
+  rewrite <- (indices_pairs (shp A) (shp B) (fun e o => emul (aget A e) (aget B o))) by lia.
   apply map_ext_in. intros oi Hoi. apply In_indices in Hoi.
   destruct (inb_interleave (shp A) (shp B) oi ltac:(lia) Hoi) as [E [Ha Hb]].
   rewrite E at 1 2.
@@ -336,7 +340,7 @@ Proof.
   destruct (inb_divmod (shp A) (map2 Nat.mul (shp B) (shp C)) idx) as [J1 J2]; auto.
   { rewrite map2_length; lia. }
   unfold kron2. rewrite !aget_tabulate by auto. cbn [shp].
-  rewrite E1, E2, E3. ring.
+  rewrite E1, E2, E3. symmetry. apply emul_assoc.
 Qed.
 
 (* ------------------------------------------------------------------ the binary-tree reduction *)
@@ -464,7 +468,7 @@ Proof.
   induction Fs as [|G Fs IH]; intros F HF HFs; simpl; auto.
   inversion HFs; subst. apply IH; auto. apply wf_kron2; auto.
 Qed.
-Lemma axis_dims_snoc a L G : axis_dims a (L ++ [G]) = axis_dims a L ++ [nth a (shp G) 0].
+Lemma axis_dims_snoc a (L : list arr) (G : arr) : axis_dims a (L ++ [G]) = axis_dims a L ++ [nth a (shp G) 0].
 Proof. unfold axis_dims. rewrite map_app. reflexivity. Qed.
 
 Lemma nth_map2 {A B C} (f : A -> B -> C) da db dc l : forall m k, k < length l -> length l = length m ->
@@ -506,14 +510,18 @@ Proof.
       change (F :: L ++ [G]) with ((F :: L) ++ [G]). rewrite axis_dims_snoc, prodn_app. simpl. lia.
 Qed.
 
-Lemma zprod_app l1 l2 : zprod (l1 ++ l2) = (zprod l1 * zprod l2)%Z.
-Proof. unfold zprod. induction l1 as [|x l1 IH]; simpl; [destruct (fold_right Z.mul 1%Z l2); reflexivity|]. rewrite IH. ring. Qed.
+Lemma zprod_app (l1 l2 : list T) : zprod (l1 ++ l2) = emul (zprod l1) (zprod l2).
+Proof.
+  unfold zprod. induction l1 as [|x l1 IH]; simpl; [symmetry; apply emul_1_l|]. rewrite IH. apply emul_assoc.
+Qed.
+Lemma emul_1_r (x : T) : emul x eone = x.
+Proof. rewrite emul_comm. apply emul_1_l. Qed.
 
 Theorem kron_chain_entry r L : forall F idx, Forall (wf r) (F :: L) -> inb idx (shp (kron_chain F L)) ->
   aget (kron_chain F L) idx = kron_entry r (F :: L) idx.
 Proof.
   induction L as [|G L IH] using rev_ind; intros F idx Hwf Hin.
-  - unfold kron_entry. simpl. rewrite Z.mul_1_r. f_equal.
+  - unfold kron_entry. cbn [length seq map zprod fold_right nth]. rewrite emul_1_r. f_equal.
     inversion Hwf as [|? ? [H1 _] _]; subst. simpl in Hin.
     assert (Hl : length idx = length (shp F)) by (apply inb_length in Hin; auto).
     unfold factor_index. rewrite <- Hl. rewrite <- (map_nth_seq idx) at 1. apply map_ext. intros a.
@@ -551,7 +559,7 @@ Proof.
     unfold kron_entry. change (F :: L ++ [G]) with ((F :: L) ++ [G]).
     set (L1 := F :: L) in *.
     rewrite app_length. change (length [G]) with 1. rewrite Nat.add_1_r, seq_S, map_app, zprod_app.
-    change (0 + length L1) with (length L1). cbn [map zprod fold_right]. rewrite Z.mul_1_r.
+    change (0 + length L1) with (length L1). cbn [map zprod fold_right]. rewrite emul_1_r.
     assert (HlenL1 : 1 <= length L1) by (subst L1; cbn [length]; lia).
     f_equal.
     + (* the factors of the prefix chain *)
@@ -570,3 +578,4 @@ Proof.
       rewrite unravel_length. unfold axis_dims at 1. rewrite map_length, Nat.sub_diag. cbn [nth].
       rewrite (nth_map2 Nat.modulo 0 0 0) by lia. reflexivity.
 Qed.
+End Generic.
